@@ -10,6 +10,10 @@
                                the step leaves by the path's exit (advance(k), goTo(operand i), backtrack,
                                return); ErrBacktrackingStackLimit only on paths ending in goTo or backtrack;
                                "unknown opcode" exactly on the codes [eff_dispatch] rejects
+     vm_table_paths_are_model_paths
+                               the converse at path level: every path the table lists for a case code is the
+                               path VM.step takes from some state (found by computation over a small family of
+                               candidate states), so a source edit that ADDS a way through a case is reported too
      eff_dispatch_is_keys      [eff_dispatch] accepts exactly the keys of G_effects_x (vm_compute over all
                                64 opcodes x 3 entry modes): model and source implement the same case codes
      vm_ustep_effect_in_table  the same for the unbounded-stack machine of Proofs/VMU.v
@@ -776,3 +780,177 @@ Lemma eff_helper_arities :
   (G_eff_stackPush, G_eff_stackPush2, G_eff_trackPop, G_eff_stackPop, G_eff_backtrack_pops) = (1, 2, 1, 1, 1) /\
   (G_eff_Capture, G_eff_transferCapture, G_eff_uncapture) = ((1, 1), (1, 2), 1).
 Proof. vm_compute. repeat split; reflexivity. Qed.
+
+(* ---------- the converse at path level: every path the table lists is taken by the model ---------- *)
+(* boolean versions of the path predicates (sound: eff_path_okb_sound) *)
+Lemma eff_zlist_eqb_eq a : forall b, zlist_eqb a b = true -> a = b.
+Proof.
+  induction a as [|x a IH]; intros [|y b] H; cbn [zlist_eqb] in H; try discriminate; [reflexivity|].
+  apply andb_true_iff in H. destruct H as [H1 H2]. apply Z.eqb_eq in H1. subst y. f_equal. apply IH. exact H2.
+Qed.
+
+Definition eff_listsb (pop push : Z) (before after : list Z) : bool :=
+  (0 <=? pop) && (pop <=? zlen before) && (0 <=? push) && (push <=? zlen after) &&
+  zlist_eqb (skipn (Z.to_nat push) after) (skipn (Z.to_nat pop) before).
+Lemma eff_listsb_sound pop push b a : eff_listsb pop push b a = true -> eff_lists pop push b a.
+Proof.
+  unfold eff_listsb, eff_lists. rewrite !andb_true_iff. intros [[[[H1 H2] H3] H4] H5].
+  apply eff_zlist_eqb_eq in H5. split; [exact H5|lia].
+Qed.
+
+Definition eff_heights (l : list Z) : list Z := map Z.of_nat (seq 0 (S (length l))).
+
+Definition eff_trackb (fl tpop tpush : Z) (before after : list Z) : bool :=
+  if fl =? 0 then eff_listsb tpop tpush before after
+  else if fl =? 1 then existsb (fun k => eff_listsb k tpush before after) (eff_heights before)
+  else if fl =? 2 then
+    (tpop =? 0) && (tpush =? 0) &&
+    match rev before, rev after with
+    | _ :: rb, _ :: ra => zlist_eqb rb ra
+    | _, _ => false
+    end
+  else false.
+Lemma eff_trackb_sound fl tpop tpush b a : eff_trackb fl tpop tpush b a = true -> eff_track fl tpop tpush b a.
+Proof.
+  unfold eff_trackb, eff_track. destruct (fl =? 0); [apply eff_listsb_sound|].
+  destruct (fl =? 1).
+  { intros H. apply existsb_exists in H. destruct H as (k & _ & H). exists k. apply eff_listsb_sound. exact H. }
+  destruct (fl =? 2); [|discriminate].
+  rewrite !andb_true_iff, !Z.eqb_eq. intros [[-> ->] H]. split; [reflexivity|split; [reflexivity|]].
+  destruct (rev b) as [|x rb] eqn:Eb; [discriminate|]. destruct (rev a) as [|y ra] eqn:Ea; [discriminate|].
+  apply eff_zlist_eqb_eq in H. subst ra. exists (rev rb), x, y.
+  rewrite <- (rev_involutive b), <- (rev_involutive a), Eb, Ea. split; reflexivity.
+Qed.
+
+Definition eff_crawlb (c : Z) (before after : list Z) : bool :=
+  let '(pmin, pmax, pops, loop) := eff_crawl_dec c in
+  if loop =? 0 then existsb (fun j => (pmin <=? j) && (j <=? pmax) && eff_listsb pops j before after) (eff_heights after)
+  else if (loop =? 1) && (pmin =? 0) && (pmax =? 0) && (pops =? 0) then
+    existsb (fun k => eff_listsb k 0 before after) (eff_heights before)
+  else false.
+Lemma eff_crawlb_sound c b a : eff_crawlb c b a = true -> eff_crawl c b a.
+Proof.
+  unfold eff_crawlb, eff_crawl, eff_crawl_sem. destruct (eff_crawl_dec c) as [[[pmin pmax] pops] loop].
+  destruct (loop =? 0).
+  { intros H. apply existsb_exists in H. destruct H as (j & _ & H). rewrite !andb_true_iff in H.
+    destruct H as [[H1 H2] H3]. exists j. split; [lia|apply eff_listsb_sound; exact H3]. }
+  destruct ((loop =? 1) && (pmin =? 0) && (pmax =? 0) && (pops =? 0)); [|discriminate].
+  intros H. apply existsb_exists in H. destruct H as (k & _ & H). exists k. apply eff_listsb_sound. exact H.
+Qed.
+
+Section Real.
+Variable p : program.
+
+Definition eff_bodyb (tpop tpush spop spush fl cw : Z) (s : vm) (T S C : list Z) : bool :=
+  eff_trackb fl tpop tpush (track s) T && eff_listsb spop spush (stack s) S && eff_crawlb cw (crawl s) C.
+
+Definition eff_path_okb (pt : eff_path) (s : vm) (o : outcome) : bool :=
+  let '(tpop, tpush, spop, spush, ex, fl, cw) := pt in
+  if eff_is_advance ex then
+    match o with
+    | Next s' => (mode s' =? 0) && (pc s' =? pc s + ex + 1) && eff_bodyb tpop tpush spop spush fl cw s (track s') (stack s') (crawl s')
+    | _ => false
+    end
+  else if eff_is_goto ex then
+    match o with
+    | Next s' => (mode s' =? 0) &&
+                 match code_at p (pc s + (ex - 10) + 1) with Some v => v =? pc s' | None => false end &&
+                 eff_bodyb tpop tpush spop spush fl cw s (track s') (stack s') (crawl s')
+    | _ => false
+    end
+  else if ex =? 20 then
+    match o with
+    | Next s' =>
+        let np := if mode s' =? Back2Bit then - pc s' else pc s' in
+        (pc s' =? Z.abs np) && (mode s' =? (if np <? 0 then Back2Bit else BackBit)) &&
+        eff_bodyb tpop tpush spop spush fl cw s (np :: track s') (stack s') (crawl s')
+    | _ => false
+    end
+  else if ex =? 30 then
+    match o with
+    | Done s' => (pc s' =? pc s) && eff_bodyb tpop tpush spop spush fl cw s (track s') (stack s') (crawl s')
+    | _ => false
+    end
+  else false.
+
+Lemma eff_bodyb_sound tpop tpush spop spush fl cw s T S C :
+  eff_bodyb tpop tpush spop spush fl cw s T S C = true ->
+  eff_track fl tpop tpush (track s) T /\ eff_lists spop spush (stack s) S /\ eff_crawl cw (crawl s) C.
+Proof.
+  unfold eff_bodyb. rewrite !andb_true_iff. intros [[H1 H2] H3].
+  split; [apply eff_trackb_sound; exact H1|split; [apply eff_listsb_sound; exact H2|apply eff_crawlb_sound; exact H3]].
+Qed.
+
+Lemma eff_path_okb_sound pt s o : eff_path_okb pt s o = true -> eff_path_ok p pt s o.
+Proof.
+  destruct pt as [[[[[[tpop tpush] spop] spush] ex] fl] cw]. unfold eff_path_okb, eff_path_ok.
+  destruct (eff_is_advance ex); [|destruct (eff_is_goto ex); [|destruct (ex =? 20); [|destruct (ex =? 30)]]].
+  - destruct o as [s'| | |]; try discriminate. rewrite !andb_true_iff, !Z.eqb_eq. intros [[H1 H2] H3].
+    exists s'. split; [reflexivity|split; [exact H1|split; [exact H2|apply eff_bodyb_sound; exact H3]]].
+  - destruct o as [s'| | |]; try discriminate. rewrite !andb_true_iff, !Z.eqb_eq. intros [[H1 H2] H3].
+    exists s'. split; [reflexivity|split; [exact H1|split; [|apply eff_bodyb_sound; exact H3]]].
+    destruct (code_at p (pc s + (ex - 10) + 1)) as [v|]; [|discriminate]. apply Z.eqb_eq in H2. subst v. reflexivity.
+  - destruct o as [s'| | |]; try discriminate. cbv zeta. rewrite !andb_true_iff, !Z.eqb_eq. intros [[H1 H2] H3].
+    exists s', (if mode s' =? Back2Bit then - pc s' else pc s').
+    split; [reflexivity|split; [exact H1|split; [exact H2|apply eff_bodyb_sound; exact H3]]].
+  - destruct o as [|s'| |]; try discriminate. rewrite !andb_true_iff, !Z.eqb_eq. intros [H1 H3].
+    exists s'. split; [reflexivity|split; [exact H1|apply eff_bodyb_sound; exact H3]].
+  - discriminate.
+Qed.
+
+End Real.
+
+(* candidate states: the code word of case code c at position 0 with operands (a, b), followed by Stop words;
+   a small family of operands, text positions and stack contents, enough to drive every path of every case *)
+Definition eff_env : env :=
+  {| txt := [97; 98]; tstart := 0; ecma := false; endz_strict := false; set_in := fun _ x => x =? 97;
+     lower := fun x => x; is_word := fun x => x =? 97; is_eword := fun x => x =? 97 |}.
+Definition eff_prog (c a b : Z) : program :=
+  {| codes := [Z.land c 63; a; b; Stop; Stop; Stop; Stop; Stop]; strings := [[97]]; trackcount := 1; capsize := 2 |}.
+Definition eff_state (c t : Z) (T S C : list Z) (M : list (list Z)) : vm :=
+  {| pc := 0; mode := (if c <? 128 then 0 else if c <? 256 then BackBit else Back2Bit); tp := t;
+     track := T; tcap := 64; stack := S; scap := 64; crawl := C; mcaps := M |}.
+
+Definition eff_cand_operands : list (Z * Z) := [(3, 1); (97, 1); (0, -1); (0, 1); (1, 1)].
+Definition eff_cand_tp : list Z := [0; 1; 2; 3].
+Definition eff_cand_track : list (list Z) :=
+  [[2; 2; 2; 2; 2; 2]; [0; 0; 2; 2; 2; 2]; [0; 1; 2; 2; 2; 2]; [1; 0; 0; 2; 2; 2]; [1; 1; 2; 2; 2; 2]].
+Definition eff_cand_stack : list (list Z) := [[0; 0; 0]; [1; 1; 1]; [-1; 0; 0]; [0; 6; 0]; [2; 2; 2]].
+Definition eff_cand_caps : list (list Z * list (list Z)) :=
+  [([], [[]; []]); ([0; 0], [[0; 1; 0; 1]; [0; 1]]); ([], [[]; [0; 1]])].
+
+Definition eff_realised (c : Z) (pt : eff_path) : bool :=
+  existsb (fun ab => existsb (fun t => existsb (fun T => existsb (fun S => existsb (fun CM =>
+    let pr := eff_prog c (fst ab) (snd ab) in
+    let s := eff_state c t T S (fst CM) (snd CM) in
+    (eff_case_code (Z.land c 63) (mode s) =? c) &&
+    match step eff_env pr (-1) s with
+    | Ok o => eff_path_okb pr pt s o
+    | _ => false
+    end) eff_cand_caps) eff_cand_stack) eff_cand_track) eff_cand_tp) eff_cand_operands.
+
+Lemma eff_all_paths_realised :
+  forallb (fun kv => (fst kv =? -1) || forallb (eff_realised (fst kv)) (snd kv)) G_effects_x = true.
+Proof. vm_compute. reflexivity. Qed.
+
+(* every path of every case of the table is the path VM.step takes from some state: the table has no path the
+   model lacks (a source edit that ADDS a way through a case body is reported, not only one that changes a way) *)
+Theorem vm_table_paths_are_model_paths c pts pt :
+  In (c, pts) G_effects_x -> c <> -1 -> In pt pts ->
+  exists e p s w o, code_at p (pc s) = Some w /\ eff_case_code w (mode s) = c /\
+                    step e p (-1) s = Ok o /\ eff_path_ok p pt s o.
+Proof.
+  intros Hc Hn Hpt. pose proof eff_all_paths_realised as H. rewrite forallb_forall in H.
+  specialize (H _ Hc). cbn [fst snd] in H. apply orb_true_iff in H. destruct H as [H|H]; [lia|].
+  rewrite forallb_forall in H. specialize (H _ Hpt). unfold eff_realised in H.
+  apply existsb_exists in H. destruct H as (ab & _ & H).
+  apply existsb_exists in H. destruct H as (t & _ & H).
+  apply existsb_exists in H. destruct H as (T & _ & H).
+  apply existsb_exists in H. destruct H as (S & _ & H).
+  apply existsb_exists in H. destruct H as (CM & _ & H).
+  cbv zeta in H. apply andb_true_iff in H. destruct H as [H1 H2]. apply Z.eqb_eq in H1.
+  destruct (step eff_env (eff_prog c (fst ab) (snd ab)) (-1) (eff_state c t T S (fst CM) (snd CM))) as [o| | |] eqn:E;
+    try discriminate.
+  exists eff_env, (eff_prog c (fst ab) (snd ab)), (eff_state c t T S (fst CM) (snd CM)), (Z.land c 63), o.
+  split; [reflexivity|]. split; [exact H1|]. split; [exact E|]. apply eff_path_okb_sound. exact H2.
+Qed.
